@@ -46,7 +46,7 @@ func checkC17(tier string) {
 	}
 	env := []string{"VERIF_ELEMK=3", "VERIF_FUEL=3", "VERIF_LISTLEN=3", "VERIF_STRLEN=4"}
 	if tier == "thorough" {
-		env = []string{"VERIF_ELEMK=3", "VERIF_FUEL=3", "VERIF_LISTLEN=4", "VERIF_STRLEN=6"}
+		env = []string{"VERIF_ELEMK=3", "VERIF_FUEL=3", "VERIF_LISTLEN=4", "VERIF_STRLEN=5"}
 	}
 	res := runE1(cases, "C17", 30, env, 1)
 	aggregateE1(rep, "C17", cases, res, bound+"; result types {A, []string} for slices and {rune,string,int,Flat,*int,[]byte} for strings",
